@@ -43,6 +43,9 @@ CLAIMED = {
  'C11': ('proof', 'deductive VCs from the real AST (pyvc): criterion spec of check_distance per element pair, whole box search on two atoms at arbitrary real coordinates (symbolic cell indices via ToInt, symbolic dict keys), cell lemma, ground check of the offset list in the AST',
          'bonds found <=> pairwise criterion proved for any placement of a pair relative to the cell grid, any sign, both orders, with prior bonds; bridge flags; Group.setup/calculate_total_pka for bridged CYS.',
          'A-REAL (floor over reals); pair-independence for n > 2 atoms argued from the coverage obligations, backed by a bounded monitor on random clouds'),
+ 'C17': ('proof', 'deductive VCs from the real AST (pyvc): rescale/set_bond_distance length contracts, add_proton post, electron-count ground evaluation through the real tables, hydrogen counts with abstracted geometry, obtuse-angle and equivariance obligations via pure lemmas (ring normalisation / ideal membership in sympy, z3) instantiated at the values the real code computes',
+         'bond length, single heavy neighbour, number of hydrogens and the expected complement proved; 2-bond trigonal / 3-bond tetrahedral placements proved obtuse to existing bonds and equivariant under the 24 proper signed permutations; sequential placements bounded only.',
+         'A-REAL, A-TRIG; "regular covalent geometry" encoded as stated bounds on bond-angle cosines; H-H >= 0.5 A for sequentially built hydrogens is bounded (monitor)'),
  'C18': ('other', 'deductive VCs from the real AST (pyvc) for the matrix invariants and the squared_property descriptor + exhaustive GROUND evaluation of the shipped propka.cfg through the real parser',
          'Invariant step of PairwiseMatrix.add from every pre-state over a 3-name universe, InteractionMatrix.add for 0-4 rows, descriptor consistency under interleaved assignments: proved. Shipped-file completeness: 3 genuine gaps recorded as known findings (so not "proof").',
          'parse_line dispatch not symbolically executed (bounded monitor on generated files); universe/row-count bounds stated in the evidence'),
